@@ -1403,7 +1403,8 @@ class TangentVector(PointPair):
         kleinian_shape[-1] -= 1
 
         kleinian_pt = utils.zeros(kleinian_shape,
-                                  like=self.proj_data)
+                                  like=self.proj_data,
+                                  integer_type=False)
 
         kleinian_pt[..., 0] = hyp_to_affine_dist(distance)
 
